@@ -89,6 +89,11 @@ pub struct WorldCfg {
     /// queue of one entry (board 0, stub radio)
     #[serde(default)]
     pub lazy_app: bool,
+    /// nb front-end (C20): a stored session is not always installed into a device that has done nothing yet: the
+    /// application may re-install it on the running device, or the fresh device may first have tried to join (nobody
+    /// answered) or have run on another session for one uplink
+    #[serde(default)]
+    pub restore_into_used: bool,
 }
 
 impl WorldCfg {
@@ -110,6 +115,7 @@ impl WorldCfg {
             small_buffer: false,
             phy: None,
             lazy_app: false,
+            restore_into_used: false,
         }
     }
 }
@@ -620,6 +626,9 @@ impl Shrinkable for MacCase {
             fields.push(c);
             let mut c = self.cfg.clone();
             c.lazy_app = false;
+            fields.push(c);
+            let mut c = self.cfg.clone();
+            c.restore_into_used = false;
             fields.push(c);
             let mut c = self.cfg.clone();
             c.fcnt_up0 = 0;
